@@ -22,11 +22,19 @@ THEOREMS = ["C14_server_detects", "C14_server_detects_silent_peer", "C14_client_
 
 
 def tolerances(row, widen=1):
-    """(tol, lam): tol is the slack D given to the model, lam the allowance for link latency
-    between a server-side send and its observation on the client."""
+    """(tol, lam): tol is the slack D given to the model (scheduling slack + timestamp uncertainty),
+    lam the allowance for link latency between a server-side send and its observation on the client.
+    Both derive from the slack measured while the scenario ran.  widen > 1 gives the tolerance of
+    the 'indeterminate' band; it is capped at a quarter of a heartbeat period so that an error of a
+    whole period (3 D = 0.75 period) can never hide in it."""
     slack = row.get("slack", 0)
-    lam = (30 + slack) * widen
-    tol = (40 + slack) * widen + lam      # scheduling slack + timestamp uncertainty
+    lam = 30 + slack
+    tol = 40 + slack + lam
+    if widen > 1:
+        cap = max(tol, min(row["I"], row["T"]) // 4)
+        tol_w = min(tol * widen, cap)
+        lam = lam * tol_w // tol
+        tol = tol_w
     return tol, lam
 
 
